@@ -327,7 +327,16 @@ func genSimConfig(r *Rng, base string, k int) *simSpec {
 	}
 	sp.Promises = r.Chance(2, 3)
 	y.WriteString("flapparams:\n")
-	fmt.Fprintf(&y, "  triplength: %d\n  flightsintrip: %d\n  flightinterval: 1\n", maxLen+r.Range(2, 60), r.Range(4, 50))
+	// any Maximum Flight Interval the parameter setter accepts (at most half the Maximum Trip Duration); mostly 1
+	tlv := maxLen + r.Range(2, 60)
+	fiv := 1
+	if r.Chance(1, 3) && tlv/2 >= 2 {
+		fiv = r.Range(2, tlv/2)
+		if fiv > 4 {
+			fiv = 4
+		}
+	}
+	fmt.Fprintf(&y, "  triplength: %d\n  flightsintrip: %d\n  flightinterval: %d\n", tlv, r.Range(4, 50), fiv)
 	if sp.Promises {
 		y.WriteString("  promises:\n")
 		fmt.Fprintf(&y, "    algo: %d\n    maxpoints: %d\n    maxdays: %d\n    maxstacksize: %d\n", 1+r.Intn(2), r.Range(3, 30), maxLen+r.Range(3, 40), r.Range(1, 4))
